@@ -263,3 +263,20 @@ package main
 //@ ensures[parser-error-not-trusted] called(GetClientIP) && ret1(GetClientIP) != nil ==> !result
 //@ ensures[uses-configured-parser] called(GetClientIP) ==> arg(GetClientIP, 0) == p.realClientIPParser && arg(GetClientIP, 1) == req
 //@ ensures[members-are-trusted] called(Has) ==> result == ret(Has)
+
+// ---------------------------------------------------------------- structural obligations (whole-repository SSA scans)
+//@ prop C01
+//@ scan[upstream-handler-readers] field-readers OAuthProxy.upstreamProxy main.(*OAuthProxy).Proxy
+//@ scan[authenticated-session-callers] callers (*OAuthProxy).getAuthenticatedSession main.(*OAuthProxy).Proxy main.(*OAuthProxy).AuthOnly main.(*OAuthProxy).UserInfo main.(*OAuthProxy).backendLogout
+//@ scan[proxy-configuration-writers] field-writers OAuthProxy.* main.NewOAuthProxy main.(*OAuthProxy).buildServeMux main.(*OAuthProxy).setupServer
+//@ prop C03 C13 C14 C08
+//@ scan[save-session-callers] callers (*OAuthProxy).SaveSession main.(*OAuthProxy).SignIn main.(*OAuthProxy).OAuthCallback
+
+// ---------------------------------------------------------------- C20: the authenticated-emails map is published atomically
+//@ prop C20
+//@ scan[usermap-pointer-atomic-only] atomic-only UserMap.m
+
+//@ func (*UserMap).LoadAuthenticatedEmailsFile
+//@ prop C20
+//@ at call StorePointer assert[only-a-completely-read-file-is-published] ret1(ReadAll) == nil
+//@ ensures[read-error-keeps-old-contents] called(ReadAll) && ret1(ReadAll) != nil ==> !called(StorePointer)
